@@ -59,7 +59,7 @@ PARTIAL = [
     'are FALSE and stay unclaimed: with the goal outside the grid the heuristic can reach (height+width)**2 and the kernel model is '
     'Stuck (C14_never_stuck_full_statement_refuted, C14_optimal_full_statement_refuted: 1x1 surface, goal 5 rows away). Claimed '
     'instead, for all grids: the same statements with the goal in the grid (C14_never_stuck, C14_optimal_equals_bellman_ford) and '
-    'C14_optimal (goal value = minimum over all routes, NaN iff none; any goal)',
+    'C14_optimal (goal value = minimum over all routes, NaN iff none; any goal) and C14_path_values_optimal (every path value)',
     'optimality / never-stuck are proved for the EXACT cost instance only; for binary64 costs (non-associative rounding) they are '
     'not theorems: ties between routes whose exact costs differ by less than an ulp can be broken differently, and the float run is '
     'covered by the Dijkstra oracle (tolerance 1e-9) and the bit-exact correspondence',
@@ -75,7 +75,8 @@ LEVEL_TEXT = ('Proved for all grids, barrier sets, offset tables and every cost 
               'nearest crossable cell (NONE iff none); the exact coordinate->cell model picks the nearest centre. '
               'Proved for all grids, surfaces, barrier sets and both connectivities at the exact cost instance a+b*sqrt2 (whose order, '
               'sqrt and + are proved to be those of the real numbers): the goal value is the MINIMUM cost over all routes of crossable '
-              'cells (C14_optimal; invariant A5 with the Euclidean heuristic proved consistent), it equals the Bellman-Ford minimum '
+              'cells (C14_optimal; invariant A5 with the Euclidean heuristic proved consistent) and so is every other non-NaN value of the '
+              'returned path for its own cell (C14_path_values_optimal); the goal value equals the Bellman-Ford minimum '
               '(C14_optimal_equals_bellman_ford, with the reference itself proved correct), and the Stuck outcome is unreachable when '
               'start and goal lie in the grid (C14_never_stuck, C14_a_star_cells_optimal for the wrapper with snapping). '
               'C14_bounded_optimal_small (vm_compute, grids <= 3x3) remains as a supplement. The PrimFloat model is tied to the code by '
